@@ -321,7 +321,14 @@ int sim_violated(void) { return S.violated; }
 /* fair-finish: from now on strict round-robin among the runnable fibers. Liveness ("it fires / is delivered once
  * the faults stopped") may only be judged under a fair scheduler: a PCT priority order can starve a thread for ever */
 void sim_fair_finish(void) { if (!S.fair) { S.fair = 1; sim_probe("sched.fair_finish_requested"); } }
-void sim_set_context_tag(const char *tag) { snprintf(S.ctx_tag, sizeof(S.ctx_tag), "%s", tag ? tag : ""); }
+/* tags accumulate ("a+b"): a run can meet the preconditions of more than one known finding */
+void sim_set_context_tag(const char *tag) {
+	size_t l;
+	if (!tag || !tag[0]) { S.ctx_tag[0] = 0; return; }
+	if (strstr(S.ctx_tag, tag)) return;
+	l = strlen(S.ctx_tag);
+	snprintf(S.ctx_tag + l, sizeof(S.ctx_tag) - l, "%s%s", l ? "+" : "", tag);
+}
 const char *sim_cur_site(void) {
 	if (S.cur >= 0 && S.fb[S.cur].last_site) return S.fb[S.cur].last_site;
 	return "-";
